@@ -38,6 +38,9 @@ pub(crate) fn parse_uri<R: Read>(scanner: &mut Scanner<R>) -> Result<Uri, Error>
                     str.extend_from_slice(unicode.as_bytes());
                 }
             };
+        } else if scanner.cur < b' ' {
+            // The encoder can't write control chars back, so they are not accepted either
+            return scanner.make_generic_err("Invalid control character in Uri");
         } else {
             str.push(scanner.cur);
         }
